@@ -519,7 +519,13 @@ def export_images(data):
         sc.cleanup()
 
 
-def entry_points(data, seed_name=""):
+NOCACHE_FAULTS = ("ref", "xrefcycle", "prevloop", "xrefstmloop", "lengthref")
+
+
+def entry_points(data, seed_name="", fault=None):
+    if fault is not None and fault[0] in NOCACHE_FAULTS:
+        # reference faults also without the object cache: loop guards must not depend on objects being cached
+        yield "extract_text(caching=False)", (lambda: extract_text(io.BytesIO(data), caching=False))
     if seed_name in IMAGE_SEEDS:
         yield "extract_text_to_fp(output_dir)", (lambda: export_images(data))
     yield "extract_text", (lambda: extract_text(io.BytesIO(data)))
@@ -571,7 +577,7 @@ def run(tape, ctx, item=None):
     ctx.fault(f[0] if f[0] not in ("replace", "ref", "variant") else fk)
     ctx.probe({"truncate": "truncation", "replace": "replace", "variant": "replace", "xrefcycle": "ref-loop", "prevloop": "ref-loop", "xrefstmloop": "ref-loop", "inline": "replace", "cdict": "replace", "ccut": "payload", "lengthref": "ref-loop", "remove": "remove", "ref": "ref-loop" if f[0] == "ref" and f[3][:3] in ("loo", "rho") else "replace", "flip": "payload", "cut": "payload", "length": "payload", "cflip": "payload"}[f[0]])
     outcomes = []
-    for name, fn in entry_points(data, seed.name):
+    for name, fn in entry_points(data, seed.name, f):
         seams.CLOCK.start(budget)
         sig = None
         try:
